@@ -152,12 +152,12 @@ class Domain:
     def __init__(self, ctx):
         self.ctx, self.cache = ctx, {}
 
-    def fetch(self, pairs):
+    def fetch(self, pairs, chunk=4000):
         todo = sorted({p for p in pairs if p not in self.cache})
         if not todo:
             return
         reqs = [f"edits.domain {hx(r)} {hx(l)}" for r, l in todo]
-        for (r, l), a in zip(todo, ask_parallel(self.ctx.hook, reqs)):
+        for (r, l), a in zip(todo, ask_parallel(self.ctx.hook, reqs, chunk)):
             f = a.split(" ")
             if f[0] == "ok" and len(f) == 7:
                 self.cache[(r, l)] = (f[1], all(x == "1" for x in f[2:]), f[2:])
@@ -661,7 +661,14 @@ def run(ctx, rep):
                 "reference to a user-defined name / to another option / through a chain, on the command line / in the [delta] "
                 "section of a --config file / in a custom feature (the two within-line styles cycle through all 12 combinations); "
                 "hook-level: style flags under references between options, chains and defaults. Non-trivial: emphasis displayed "
-                "(binary), a within-line style given by reference (flags).")
+                "(binary), a within-line style given by reference (flags). "
+                "Configured thresholds: one-subhunk diffs (1x1, 2x2, 1x2, 2x1) on the real binary whose designed pair differs by one "
+                "token / by whitespace only / by both / not at all, on lines of 1-8, 10-120 and 400-2900 columns (distances from 1 down "
+                "to 1/6000), with --max-line-distance = 0 (5 spellings) / 1 / exactly the pair's distance / the next decimal above / "
+                "below it (4-12 places) / 0.001-like values / common values / not given, written on the command line (2 spellings), in "
+                "[delta] of a --config file, in a feature, or passed as git -c; the naive-pairing environment variable unset / 0 / "
+                "unparseable / positive; unified and side-by-side view; --max-line-length default / 0 / just enough. Non-trivial: "
+                "a pair is displayed.")
     rep.extra_trusted += [
         "unicode-segmentation / unicode-width / str::trim / regex spans: taken from the implementation per case "
         "(edits.domain); cases violating the DESIGN 3.1 domain conditions go to the oracle only",
@@ -1439,11 +1446,29 @@ def thr_pair(rng, cls):
     return a, b, kind
 
 
+EXACT_DENOMS = [2, 4, 5, 8, 10, 16, 20, 25, 40, 50, 80, 100, 125, 200, 250, 400, 500, 625, 800, 1000, 1250, 2000, 2500]
+
+
+def thr_exact_pair(rng, cls):
+    """A pair whose distance is a short terminating decimal, so that a threshold can sit exactly on it: the added
+    line is the removed line (W columns, ASCII) with `,y` appended: distance 2 / (2 + 2 W) = 1 / (W + 1)."""
+    lo, hi = dict(long=(400, 2600), mid=(15, 399), short=(1, 14))[cls]
+    width = rng.choice([d - 1 for d in EXACT_DENOMS if lo <= d - 1 <= hi])
+    words, w = [], 0
+    while w < width:
+        n = min(rng.randint(1, 9) if cls != "long" else rng.randint(5, 80), width - w)
+        if width - w - n == 1:          # no room for a separator and a further word
+            n += 1
+        words.append(thr_word(rng, n, n)); w += n + 1
+    a = " ".join(words)
+    return a, a + ",y", "token-append-exact"
+
+
 def thr_lines(rng, k):
     """One subhunk: mostly one removed and one added line; also 2x2 (as many removed as added lines: the naive
     threshold applies), an unrelated added line first (a rejected candidate), 2x1."""
     cls = ["long", "mid", "short", "long"][k % 4]
-    a, b, kind = thr_pair(rng, cls)
+    a, b, kind = thr_exact_pair(rng, cls) if THR_KINDS[k % len(THR_KINDS)] == "at" else thr_pair(rng, cls)
     shape = rng.choice(["1x1"] * 6 + ["2x2", "2x2", "1x2", "2x1"])
     minus, plus = [a], [b]
     if shape == "2x2":
@@ -1527,7 +1552,9 @@ def thr_materialise(job, cdir):
         elif place == "git-c":
             env["GIT_CONFIG_PARAMETERS"] = "'delta.max-line-distance=%s'" % thr
     if thr is not None and place in ("main", "feature", "git-c"):
-        # `--config <file>` replaces every other git configuration (and still honours GIT_CONFIG_PARAMETERS)
+        # `--config <file>` replaces every other git configuration (and still honours GIT_CONFIG_PARAMETERS);
+        # `--no-gitconfig` would make delta ignore the file's options
+        args.remove("--no-gitconfig")
         if feat:
             main.append("    features = vthr")
         text = "[delta]\n" + "".join(l + "\n" for l in main) + ('[delta "vthr"]\n' + "\n".join(feat) + "\n" if feat else "")
@@ -1603,11 +1630,17 @@ def end_to_end_thresholds(ctx, rep, jobs=None):
     import os
     from fractions import Fraction
     from ..core import BUILD
+    import time
     rng = ctx.rng
     REGEX = "\\w+"
     fresh = jobs is None
+    t0, timing = time.time(), rep.notes.setdefault("e2e-thr-seconds", {})
+
+    def lap(name):
+        nonlocal t0
+        timing[name] = round(timing.get(name, 0) + time.time() - t0, 1); t0 = time.time()
     if fresh:
-        drafts = [thr_lines(rng, k) for k in range(ctx.n(220, 9000))]
+        drafts = [thr_lines(rng, k) for k in range(ctx.n(160, 4000))]
     else:
         drafts = [(j["minus"], j["plus"], j["cls"], j.get("kind", "?")) for j in jobs]
     # the implementation's own distance of every candidate pair
@@ -1624,6 +1657,7 @@ def end_to_end_thresholds(ctx, rep, jobs=None):
         a = pans[i]
         if a.startswith("ok"):
             dist[key] = struct.unpack(">d", bytes.fromhex(parse_kv(a)["D"]))[0]
+    lap("hook-distances")
     if fresh:
         jobs = []
         for k, (minus, plus, cls, kind) in enumerate(drafts):
@@ -1649,7 +1683,8 @@ def end_to_end_thresholds(ctx, rep, jobs=None):
         body = "".join("-" + l + "\n" for l in j["minus"]) + "".join("+" + l + "\n" for l in j["plus"])
         diff = "diff --git a/f b/f\n--- a/f\n+++ b/f\n@@ -1,%d +1,%d @@\n" % (len(j["minus"]), len(j["plus"])) + body
         return ctx.run_delta(args, diff.encode(), env=env)
-    outs = parallel_map(one, list(zip(jobs, mats)), workers=4)
+    outs = parallel_map(one, list(zip(jobs, mats)))
+    lap("binary")
     for f in os.listdir(cdir):
         try:
             os.remove(os.path.join(cdir, f))
@@ -1732,7 +1767,8 @@ def end_to_end_thresholds(ctx, rep, jobs=None):
         except (ValueError, ZeroDivisionError):
             return None
         return q
-    todo, treq = [], []
+    todo, treq, long_budget = [], [], ctx.n(8, 200)
+    lap("oracle")
     for k, (j, pairs) in enumerate(zip(jobs, shown)):
         if pairs is None:
             continue
@@ -1743,15 +1779,23 @@ def end_to_end_thresholds(ctx, rep, jobs=None):
             eq = frac(j["env"]) if f64_of(j["env"]) is not None else "x"
         if oq is None or eq is None:
             continue
+        # the domain conditions of a line cost the hook O(columns^3), the model's table O(tokens^2) per candidate pair
         ntok = max(len(re.findall(r"\w+", l)) for l in j["minus"] + j["plus"])
-        if ntok > 60 or len(j["minus"]) * len(j["plus"]) * ntok * ntok > 8000:
+        cols = max(len(l) for l in j["minus"] + j["plus"])
+        if cols > 400:
+            long_budget -= 1
+        if ntok > 70 or cols > 640 or (cols > 400 and long_budget < 0):
             rep.count("e2e-thr:model-skipped-size")
             continue
         fq = lambda q: q if isinstance(q, str) else "%d/%d" % (q.numerator, q.denominator)
         todo.append(k); treq.append(f"pair.thresholds {fq(oq)} {fq(eq)}")
     tans = mdl.ask(treq, timeout=600) if treq else []
+    lap("model-thresholds")
     dom = Domain(ctx)
-    dom.fetch([(REGEX, l + "\n") for k in todo for l in jobs[k]["minus"] + jobs[k]["plus"]])
+    need = [(REGEX, l + "\n") for k in todo for l in jobs[k]["minus"] + jobs[k]["plus"]]
+    need.sort(key=lambda p: len(p[1]) % 7)        # spread the long lines over the workers
+    dom.fetch(need, chunk=max(8, len(set(need)) // 4 + 1))
+    lap("hook-domain")
     ireq, iidx = [], []
     for k, ta in zip(todo, tans):
         j = jobs[k]
@@ -1785,3 +1829,4 @@ def end_to_end_thresholds(ctx, rep, jobs=None):
         rep.corr_case("e2e.pairing", pred == shown[k],
                       dict(case=dict(op="e2e-thr", **{kk: j.get(kk) for kk in THR_JOB_KEYS}), thresholds=ta,
                            model=pred, impl=shown[k]))
+    lap("model-infer")
